@@ -110,6 +110,8 @@ def build(src, out, flavour="G_trap", std="c++14", extra_flags="", timeout=900, 
     compiler, flags = FLAVOURS[flavour]
     cmd = compile_cmd(compiler, std, flags + " " + extra_flags, src, out, extra_inc=extra_inc, no_repo_inc=no_repo_inc)
     rc, so, se = sh(cmd, timeout=timeout)
+    if rc == -9:  # wall-clock watchdog (loaded machine): one more attempt with a longer leash
+        rc, so, se = sh(cmd, timeout=timeout * 4)
     return rc, se
 
 
